@@ -69,7 +69,7 @@ class C17(Check):
         res = CaseResult()
         cls = program["cls"]
         res.label(f"class:{cls}")
-        if program.get("allow_known"):
+        if True:  # guards retired
             res.label("allow_known")
         from geoh5py.workspace import Workspace
 
@@ -99,7 +99,7 @@ class C17(Check):
         cls = program["cls"]
         create = dict(program["create"])
         ops = program["ops"]
-        allow = bool(program.get("allow_known"))
+        allow = True  # guards retired: the findings they protected are fixed (known_findings.json)
 
         origin_given = create.get("origin") is not None
         if not origin_given and cls in NO_ORIGIN_DEFECT:
@@ -303,7 +303,7 @@ class C17(Check):
         from geoh5py.objects import Curve
 
         create, ops = program["create"], program["ops"]
-        allow = bool(program.get("allow_known"))
+        allow = True  # guards retired: the findings they protected are fixed (known_findings.json)
         n = int(create["n"])
         verts = np.c_[np.arange(n, dtype=float), (np.arange(n) % 3) / 2.0, np.zeros(n)]
         kwargs = {"vertices": verts}
